@@ -4,7 +4,11 @@
                                 suggestions over a small proposition universe; invariants = the contract clauses
  ->  harness/drivers/c13.py     (mode suggest) at every prefix state of seeded library proofs: search_method on the recorded goal/facts
                                 and on seeded other goals/facts; every suggestion applied on a copy with the parameters it fixes
-                                (open declared parameters are taken from the recorded step when it is the same suggestion)
+                                (open declared parameters are taken from the recorded step when it is the same suggestion, else
+                                generated: fresh names, a visible variable; names that introduction asks for are then supplied);
+                                the same at GENERATED states: along generated editing sessions (facts with a typed beta-redex,
+                                closed arithmetic goals at nat, introduction of an already derived antecedent, nested existentials,
+                                ...) and search-driven walks from their ends
  T  spec/C14_SuggestTrace.tla   NeverFailsOutright, GoalsAdvertised, SolvesLeavesNone, ClosedOnesAreProved, StepChecks, FactAppears, CopyIsolated
 """
 import copy
@@ -24,7 +28,7 @@ def run(rep, tier):
     rep.rule = ("TLC: all abstract states/suggestions over 4 propositions. Real code: every suggestion returned by search_method at "
                 "prefix states of seeded library proofs (recorded goal/facts and seeded other selections), applied on a copy. "
                 "Non-trivial = a suggestion that was applied (success / query / fail); distinct by (state, goal, method, parameters).")
-    rep.assumptions = ["suggestions whose declared parameters are left open and cannot be taken from the recorded step are not applied (not judged)",
+    rep.assumptions = ["suggestions whose declared parameters are left open and can neither be taken from the recorded step nor generated are not applied (not judged)",
                        "z3 is switched off (check_z3 = False) as in the repository's monitor", "at most 10 suggestions per query are applied"]
     r = model_check("C14_Suggest", "C14_Suggest.cfg", wd=wd / "mc", workers=4)
     rep.add_mc("C14_Suggest", r, "Props=1..4, Trivial={4}")
@@ -38,12 +42,12 @@ def run(rep, tier):
     theories = list(QUICK_THEORIES)
     if quick:
         theories.append(rnd.choice(MORE[:4]))
-        n_per = 10
+        n_per, nsess = 10, 64
     else:
         theories += MORE
-        n_per = 80
+        n_per, nsess = 80, 800
     evp = wd / "suggest.ndjson"
-    run_driver("c13", ["suggest", evp, seed(), n_per, ",".join(theories)], timeout=7200)
+    run_driver("c13", ["suggest", evp, seed(), n_per, ",".join(theories), nsess], timeout=7200)
     evs = read_events(evp)
     v = validate_trace("C14_SuggestTrace", evp, wd=wd / "tv", nchunks=1 if quick else 3)
     rep.add_trace_result("suggest", evs, v, sample_n=2)
@@ -58,6 +62,24 @@ def run(rep, tier):
             c["tid"] = 10 ** 6 + len(bad)
             bad.append(c)
     selftest_trace(rep, "C14_SuggestTrace", bad, "GoalsAdvertised", wd=wd)
+    # generated states (sessions of harness/drivers/c13.py): what was really exercised there (counts only)
+    gen = [e for e in evs if e["kind"] == "suggest" and e["thm"].startswith("gen.")]
+    applied = [e for e in gen if e["outcome"] in ("success", "query", "fail")]
+
+    def cnt(pred):
+        return sum(1 for e in applied if pred(e))
+    g = {"suggestions": len(gen), "applied": len(applied),
+         "by_family": dict(Counter(e["thm"][4:].rsplit("_", 1)[0] for e in applied)),
+         "parameters_generated": dict(Counter(e["method"] for e in applied if e.get("supplied_from") in ("generated", "asked-then-generated"))),
+         "forward_fact_on_redex_states": cnt(lambda e: e["thm"].startswith("gen.redex_fact") and e["has_fact"] and e["outcome"] == "success"),
+         "closed_arith_solving": cnt(lambda e: e["thm"].startswith("gen.closed_arith") and e["has_goal"] and not e["adv_goal"] and e["outcome"] == "success"),
+         "introduction_on_known_antecedent": cnt(lambda e: e["thm"].startswith("gen.intro_known") and e["method"] == "introduction"),
+         "exists_elim_applied": cnt(lambda e: e["method"] == "exists_elim"),
+         "step_checked": cnt(lambda e: e["outcome"] == "success" and e.get("recheck_before"))}
+    rep.notes["generated_states"] = g
+    for k, lo in (("forward_fact_on_redex_states", 3), ("closed_arith_solving", 2), ("introduction_on_known_antecedent", 3), ("exists_elim_applied", 8),
+                  ("step_checked", 100)):
+        require(g[k] >= (lo if quick else 10 * lo), "C14: generated states hardly exercise %s: %s" % (k, g))
     require(rep.notes["traces"]["suggest"]["nontrivial"] >= (150 if quick else 3000), "C14: too few applied suggestions")
 
 
